@@ -39,6 +39,7 @@ RULE_TEXT = (
     'constraints, db_table-only change, defaults stated explicitly); '
     'non-trivial = the difference is non-empty; distinct = digest of '
     '(hinted mutation kinds, special edit).')
+RULE_TEXT += ' Further special edit: db_index of a ForeignKey / OneToOneField toggled around its per-type default.'
 ASSUMPTIONS = [
     'only signature pairs reachable from generated models are sampled; '
     'directly constructed signatures are out of reach (DESIGN section 7)',
